@@ -1768,6 +1768,7 @@ template<int K> static uint64_t tgt(uint64_t a, uint64_t b) {
 typedef uint64_t (*TgtFn)(uint64_t, uint64_t);
 static TgtFn kTgts[] = { tgt<0>, tgt<1>, tgt<2>, tgt<3>, tgt<4>, tgt<5> };
 static JitRuntime* g_rt = nullptr;
+static JitRuntime* g_rt_dual = nullptr;   // the same pipeline with separate writable and executable views (rx != rw)
 static uint64_t g_stub[6];
 
 enum { S_CALL_C = 0, S_CALL_STUB, S_LOAD_VAR, S_CALL_TABLE, S_CALL_LABEL, S_LEA_DATA, S_JCC_OVER, S_COUNT };
@@ -1829,6 +1830,11 @@ static void jit_build(const JSpec& P, CodeHolder& code, std::vector<JSite>& site
 
 static void init_jit() {
   g_rt = new JitRuntime();
+  {
+    JitAllocator::CreateParams dp {};
+    dp.options = JitAllocatorOptions::kUseDualMapping;
+    g_rt_dual = new JitRuntime(&dp);
+  }
   for (int k = 0; k < 6; k++) {
     CodeHolder c; c.init(g_rt->environment(), g_rt->cpu_features());
     x86::Assembler a(&c);
@@ -1848,24 +1854,27 @@ static void run_jit(Rng& r) {
     s.k = int(r.below(s.kind == S_LOAD_VAR ? 8 : 6)); s.a = uint32_t(r.next()); s.b = uint32_t(r.next()); s.sec = int(r.below(uint64_t(P.nsec))); s.c = r.next() >> 8;
     P.steps.push_back(s);
   }
-  g_prog_desc = fmt("jit steps=%zu sections=%d extra-section-after-addrtab=%d tail-jmp=%d", P.steps.size(), P.nsec, P.extra, P.tail);
+  bool dual = (r.next() & 1) != 0;
+  JitRuntime* rt = dual ? g_rt_dual : g_rt;
+  g_prog_desc = fmt("jit steps=%zu sections=%d extra-section-after-addrtab=%d tail-jmp=%d dual-mapping=%d", P.steps.size(), P.nsec, P.extra, P.tail, int(dual));
   CNT["jit_programs"]++;
+  if (dual) CNT["jit_programs_dual_mapping"]++;
   CodeHolder c1, c2; std::vector<JSite> sites1, sites2; std::vector<Section*> secs1, secs2;
   jit_build(P, c1, sites1, secs1);
   jit_build(P, c2, sites2, secs2);
   void* fnp = nullptr;
   materialize_null_buffers(c1); materialize_null_buffers(c2);
-  Error e = g_rt->add(&fnp, &c1);
+  Error e = rt->add(&fnp, &c1);
   if (e != Error::kOk) { viol(fmt("jit:add-error:%s", errname(e)), "JitRuntime::add failed"); return; }
   uint64_t base = uint64_t(uintptr_t(fnp));
   // the same program, relocated by hand to the same address
-  if (c2.flatten() != Error::kOk || c2.resolve_cross_section_fixups() != Error::kOk || c2.unresolved_fixup_count()) { viol("jit:manual-flatten-resolve-failed", "second build could not be flattened/resolved"); g_rt->release(fnp); return; }
+  if (c2.flatten() != Error::kOk || c2.resolve_cross_section_fixups() != Error::kOk || c2.unresolved_fixup_count()) { viol("jit:manual-flatten-resolve-failed", "second build could not be flattened/resolved"); rt->release(fnp); return; }
   Error le = c2.relocate_to_base(base);
-  if (le != Error::kOk) { viol(fmt("jit:manual-relocate-error:%s", errname(le)), "relocate_to_base(pointer returned by JitRuntime::add) failed"); g_rt->release(fnp); return; }
+  if (le != Error::kOk) { viol(fmt("jit:manual-relocate-error:%s", errname(le)), "relocate_to_base(pointer returned by JitRuntime::add) failed"); rt->release(fnp); return; }
   size_t size = c2.code_size();
   GuardBuf gb(size);
   Error ce = c2.copy_flattened_data(gb.data(), size, CopySectionFlags::kPadSectionBuffer | CopySectionFlags::kPadTargetBuffer);
-  if (ce != Error::kOk) { viol("jit:manual-copy-failed", errname(ce)); g_rt->release(fnp); return; }
+  if (ce != Error::kOk) { viol("jit:manual-copy-failed", errname(ce)); rt->release(fnp); return; }
   const uint8_t* mem = static_cast<const uint8_t*>(fnp);
   // compare every byte that belongs to a section (buffer or virtual size); bytes of code_size() beyond all sections are nobody's
   std::vector<uint8_t> owned(size, 0);
@@ -1926,7 +1935,7 @@ static void run_jit(Rng& r) {
     if (!ok) viol(st > 0 && st < 1000 ? "jit:call-crashed" : "jit:call-wrong-effect", fmt("status %d done=%u returned 0x%llx expected 0x%llx, %u C calls recorded, expected %zu (%s)", st, g_sh->done, (ull)g_sh->ret, (ull)expret, g_sh->nrec, exp.size(), cfg.c_str()));
     else { CNT["jit_calls_effect_verified"]++; CNT["jit_c_functions_reached"] += exp.size(); }
   }
-  g_rt->release(fnp);
+  rt->release(fnp);
 }
 #else
 static void init_jit() {}
